@@ -639,6 +639,7 @@ func (w *Worker) runPath(it WorkItem) (res PathResult) {
 	w.p = p
 	w.depth = 0
 	w.pools = map[*Value][]Value{}
+	w.syncMaps = map[*Value]*Map{}
 	w.lockDepth = 0
 	for k := range w.ts.bind {
 		delete(w.ts.bind, k)
